@@ -29,7 +29,7 @@ THE ACCEPTED SUBSET (three layers; PySem.v part 1 / 2 / 3 give the meaning)
     "stuck" (None -> CStuck -> FStuck) and the equivalence proof shows stuck is unreachable.
 
  3. procedures  (class Proc and the translate_* functions; _validate_schedules, __init__, the five setters, calc_prob_dist,
-    _validate_schedules_str, the schedule prologue of the four tomography constructors)
+    _validate_schedules_str, _validate_type, copy, the schedule prologue of the four tomography constructors)
     effect-free : for i, x in enumerate(<list|schedule>) / for x in ...  |  try: ... except (A, B) as e: <messages> raise C(msg)
                   (exactly one except clause, no finally)  |  self._validate_schedule_item(item[, objdict=objdict])
                   | self._validate_schedule_order(schedule) | self._validate_schedules(<schedules>[, objdict=objdict])
@@ -37,9 +37,20 @@ THE ACCEPTED SUBSET (three layers; PySem.v part 1 / 2 / 3 give the meaning)
     with state  : self._validate_type(<list>, <its own class>) (checked, then dropped) | objdict = dict(state=..., ...)
                   | X = [] if X is None else X | self._states|_povms|_gates|_mprocesses|_schedules = NAME
                   | try/except/else around a validator call | seed bookkeeping in __init__ (self._seed_data, reset_seed_data)
-    skeletons   : calc_prob_dist (7 fixed statements; extracted: the key_map, the exception class, appendleft) and the tomography
-                  prologue (4 fixed statements; extracted: the str test, the expansion as map / flat_map over zseq, the
-                  Experiment(...) keyword arguments, the guard call); the rest of those constructors must not rebind them.
+    straight-line procedures with tolerated variation:
+                  calc_prob_dist — index validation before the lookup; the independent preparations (schedule lookup, key_map,
+                  empty deque / list) in any order; `k, i = item` or `k = item[0]; i = item[1]`; `if not t` or `if t is None`;
+                  appendleft / insert(0, .) (-> collect_left) or append (-> collect_right); compose_qoperations(*T | *reversed(T));
+                  `return R.ps` or `return op.compose_qoperations(...).ps`.
+                  tomography prologue — `type(schedules) == str` or `isinstance(schedules, str)`; the "all" test after or nested in
+                  the str branch; expansion as 1- or 2-generator comprehension, product loop, nested loops or a single loop
+                  (-> map / flat_map over zseq); Experiment(...) keyword arguments in any order; inert `self.X = <parameter>`
+                  statements in between; then the guard call; the rest of the constructor must not rebind schedules / the experiment.
+                  _validate_type — one loop, one `if` over truthiness / `is None` / isinstance(target, expected_type); its message
+                  block may use type(), __name__, .lower(), set([...]), ", ".join(...) (join can raise TypeError: accepted only
+                  because the statement raises TypeError anyway).
+                  copy — NAME = copy.copy(self.P) | list(self.P) | self.P, Experiment(<keywords>), return.
+                  property getters used (self.schedules, self.states, ...) must return (a copy of) the attribute.
     DEFINITE ASSIGNMENT: a name used in a message / handler must be bound on every path (names bound only inside the try
     body do not count) — otherwise Unsupported ("name j is not definitely bound here": this is how the UnboundLocalError
     defect C20-2 shows up at translation time).
@@ -780,17 +791,24 @@ def find_setter(tree, cls, prop):
 
 
 def check_trivial_getter(tree, cls, prop, attr):
-    """@property def prop(self): return self.attr"""
+    """@property def prop(self): return self.attr | list(self.attr) | copy.copy(self.attr)   (same VALUE in every case)"""
+    def is_attr(e):
+        return isinstance(e, ast.Attribute) and isinstance(e.value, ast.Name) and e.value.id == "self" and e.attr == attr
     for n in ast.walk(tree):
         if isinstance(n, ast.ClassDef) and n.name == cls:
             for m in n.body:
                 if isinstance(m, ast.FunctionDef) and m.name == prop and len(m.decorator_list) == 1 and isinstance(m.decorator_list[0], ast.Name) \
                         and m.decorator_list[0].id == "property":
                     body = [s for s in m.body if not is_doc(s)]
-                    if len(body) == 1 and isinstance(body[0], ast.Return) and isinstance(body[0].value, ast.Attribute) \
-                            and isinstance(body[0].value.value, ast.Name) and body[0].value.value.id == "self" and body[0].value.attr == attr:
-                        return
-                    raise Unsupported("property %s.%s is not `return self.%s`" % (cls, prop, attr))
+                    if len(body) == 1 and isinstance(body[0], ast.Return):
+                        v = body[0].value
+                        if is_attr(v):
+                            return
+                        if isinstance(v, ast.Call) and len(v.args) == 1 and not v.keywords and is_attr(v.args[0]) and \
+                                ((isinstance(v.func, ast.Name) and v.func.id == "list") or
+                                 (isinstance(v.func, ast.Attribute) and v.func.attr == "copy" and isinstance(v.func.value, ast.Name) and v.func.value.id == "copy")):
+                            return
+                    raise Unsupported("property %s.%s does not return (a copy of) self.%s" % (cls, prop, attr))
     raise Unsupported("property %s.%s not found" % (cls, prop))
 
 
@@ -866,85 +884,332 @@ def translate_schedule_index(repo):
 
 
 def translate_calc_prob_dist(repo):
-    """skeleton of Experiment.calc_prob_dist: index validation, schedule lookup, the key_map, the loop that rejects None
-    placeholders and collects the referenced objects with appendleft, compose_qoperations(*targets).ps"""
+    """Experiment.calc_prob_dist as a small straight-line procedure (statement ORDER of the independent preparations and a few
+    equivalent spellings are tolerated):
+      self._validate_schedule_index(schedule_index)                       (must precede the schedule lookup)
+      S = self.schedules[schedule_index] | self._schedules[schedule_index]
+      M = dict(state=self._states, gate=..., povm=..., mprocess=...)
+      T = collections.deque() | [] | list()
+      for X in S:   k, i = X | k = X[0]; i = X[1]      t = M[k][i]      if not t | if t is None: <messages> raise E(..)
+                    T.appendleft(t) | T.insert(0, t)   (collect in reverse)      or      T.append(t)   (collect in order)
+      R = op.compose_qoperations(*T | *reversed(T))  ;  return R.ps        or   return op.compose_qoperations(...).ps"""
     tree = experiment_tree(repo)
     f = find_method(tree, "Experiment", "calc_prob_dist")
     plain_params(f, ["self", "schedule_index"])
-    b = [x for x in f.body if not is_doc(x)]
-    def bad(i, why):
-        raise Unsupported("calc_prob_dist, statement %d: %s" % (i, why))
-    if len(b) != 7:
-        bad(len(b), "expected 7 statements")
+    body = [x for x in f.body if not is_doc(x)]
+    st = {"validated": False, "sched": None, "kmap": None, "mk": None, "acc": None, "loop": None, "result": None, "done": False}
+    used = {"self", "schedule_index"}
+
+    def fresh(name, node):
+        if name in used:
+            fail(node, "rebinding of %s" % name)
+        used.add(name)
+
     def self_attr(e, names):
         return isinstance(e, ast.Attribute) and isinstance(e.value, ast.Name) and e.value.id == "self" and e.attr in names
-    def simple_assign(st, i):
-        if not (isinstance(st, ast.Assign) and len(st.targets) == 1 and isinstance(st.targets[0], ast.Name)):
-            bad(i, "expected NAME = ...")
-        return st.targets[0].id, st.value
-    # 0: self._validate_schedule_index(schedule_index)
-    c = b[0].value if isinstance(b[0], ast.Expr) else None
-    if not (isinstance(c, ast.Call) and self_attr(c.func, ["_validate_schedule_index"]) and not c.keywords and len(c.args) == 1
-            and isinstance(c.args[0], ast.Name) and c.args[0].id == "schedule_index"):
-        bad(0, "expected self._validate_schedule_index(schedule_index)")
-    # 1: schedule = self.schedules[schedule_index]
-    sched, v = simple_assign(b[1], 1)
-    if not (isinstance(v, ast.Subscript) and self_attr(v.value, ["schedules", "_schedules"]) and isinstance(v.slice, ast.Name) and v.slice.id == "schedule_index"):
-        bad(1, "expected self.schedules[schedule_index]")
-    # 2: key_map = dict(state=self._states, ...)
-    kmap, v = simple_assign(b[2], 2)
-    p = Proc("(e_cfg self_)", "self_")
-    mk = p.mkcfg_of_dict(v)
-    # 3: targets = collections.deque()
-    targets, v = simple_assign(b[3], 3)
-    if not (isinstance(v, ast.Call) and not v.args and not v.keywords and isinstance(v.func, ast.Attribute) and v.func.attr == "deque"
-            and isinstance(v.func.value, ast.Name) and v.func.value.id == "collections"):
-        bad(3, "expected collections.deque()")
-    if len({sched, kmap, targets, "self", "schedule_index"}) != 5:
-        bad(3, "variable names")
-    # 4: the loop
-    lp = b[4]
-    if not (isinstance(lp, ast.For) and not lp.orelse and isinstance(lp.target, ast.Name) and isinstance(lp.iter, ast.Name) and lp.iter.id == sched
-            and len(lp.body) == 4):
-        bad(4, "expected `for item in schedule:` with 4 statements")
-    item = lp.target.id
-    l0, l1, l2, l3 = lp.body
-    if not (isinstance(l0, ast.Assign) and len(l0.targets) == 1 and isinstance(l0.targets[0], ast.Tuple) and len(l0.targets[0].elts) == 2
-            and all(isinstance(x, ast.Name) for x in l0.targets[0].elts) and isinstance(l0.value, ast.Name) and l0.value.id == item):
-        bad(4, "expected `k, i = item`")
-    k, i = (x.id for x in l0.targets[0].elts)
-    tname, v = simple_assign(l1, 4)
-    if not (isinstance(v, ast.Subscript) and isinstance(v.value, ast.Subscript) and isinstance(v.value.value, ast.Name) and v.value.value.id == kmap
-            and isinstance(v.value.slice, ast.Name) and v.value.slice.id == k and isinstance(v.slice, ast.Name) and v.slice.id == i):
-        bad(4, "expected `target = key_map[k][i]`")
-    if len({sched, kmap, targets, item, k, i, tname, "self", "schedule_index"}) != 9:
-        bad(4, "variable names")
-    if not (isinstance(l2, ast.If) and not l2.orelse and isinstance(l2.test, ast.UnaryOp) and isinstance(l2.test.op, ast.Not)
-            and isinstance(l2.test.operand, ast.Name) and l2.test.operand.id == tname):
-        bad(4, "expected `if not target:`")
-    exc = message_then_raise(l2.body, {k, i, item})
-    c = l3.value if isinstance(l3, ast.Expr) else None
-    if not (isinstance(c, ast.Call) and isinstance(c.func, ast.Attribute) and c.func.attr == "appendleft" and isinstance(c.func.value, ast.Name)
-            and c.func.value.id == targets and not c.keywords and len(c.args) == 1 and isinstance(c.args[0], ast.Name) and c.args[0].id == tname):
-        bad(4, "expected `targets.appendleft(target)`")
-    # 5: prob_dist = op.compose_qoperations(*targets)
-    pd, v = simple_assign(b[5], 5)
-    if not (isinstance(v, ast.Call) and isinstance(v.func, ast.Attribute) and v.func.attr == "compose_qoperations" and not v.keywords and len(v.args) == 1
-            and isinstance(v.args[0], ast.Starred) and isinstance(v.args[0].value, ast.Name) and v.args[0].value.id == targets):
-        bad(5, "expected compose_qoperations(*targets)")
-    # 6: return prob_dist.ps
-    r = b[6]
-    if not (isinstance(r, ast.Return) and isinstance(r.value, ast.Attribute) and r.value.attr == "ps" and isinstance(r.value.value, ast.Name) and r.value.value.id == pd):
-        bad(6, "expected `return prob_dist.ps`")
+
+    def compose_call(v):
+        """op.compose_qoperations(*T) -> ('plain'|'reversed')"""
+        if not (isinstance(v, ast.Call) and isinstance(v.func, ast.Attribute) and v.func.attr == "compose_qoperations" and not v.keywords
+                and len(v.args) == 1 and isinstance(v.args[0], ast.Starred)):
+            return None
+        a = v.args[0].value
+        if isinstance(a, ast.Name) and a.id == st["acc"]:
+            return "plain"
+        if isinstance(a, ast.Call) and isinstance(a.func, ast.Name) and a.func.id == "reversed" and len(a.args) == 1 and not a.keywords \
+                and isinstance(a.args[0], ast.Name) and a.args[0].id == st["acc"]:
+            return "reversed"
+        return None
+
+    def loop(lp):
+        if lp.orelse or not isinstance(lp.target, ast.Name) or not (isinstance(lp.iter, ast.Name) and lp.iter.id == st["sched"]):
+            fail(lp, "expected `for item in <schedule>:`")
+        item = lp.target.id
+        fresh(item, lp)
+        k = i = t = exc = direction = None
+        for b in lp.body:
+            if isinstance(b, ast.Assign) and len(b.targets) == 1:
+                tg, v = b.targets[0], b.value
+                if isinstance(tg, ast.Tuple) and len(tg.elts) == 2 and all(isinstance(x, ast.Name) for x in tg.elts) and isinstance(v, ast.Name) \
+                        and v.id == item and k is None and i is None:
+                    k, i = tg.elts[0].id, tg.elts[1].id
+                    fresh(k, b); fresh(i, b)
+                    continue
+                if isinstance(tg, ast.Name) and isinstance(v, ast.Subscript) and isinstance(v.value, ast.Name) and v.value.id == item \
+                        and isinstance(v.slice, ast.Constant) and v.slice.value in (0, 1) and type(v.slice.value) is int:
+                    if v.slice.value == 0 and k is None:
+                        k = tg.id; fresh(k, b); continue
+                    if v.slice.value == 1 and i is None:
+                        i = tg.id; fresh(i, b); continue
+                if isinstance(tg, ast.Name) and t is None and k and i and isinstance(v, ast.Subscript) and isinstance(v.value, ast.Subscript) \
+                        and isinstance(v.value.value, ast.Name) and v.value.value.id == st["kmap"] and isinstance(v.value.slice, ast.Name) \
+                        and v.value.slice.id == k and isinstance(v.slice, ast.Name) and v.slice.id == i:
+                    t = tg.id; fresh(t, b); continue
+                fail(b, "assignment in the loop")
+            if isinstance(b, ast.If) and not b.orelse and t and exc is None:
+                c = b.test
+                ok = (isinstance(c, ast.UnaryOp) and isinstance(c.op, ast.Not) and isinstance(c.operand, ast.Name) and c.operand.id == t) or \
+                     (isinstance(c, ast.Compare) and len(c.ops) == 1 and isinstance(c.ops[0], ast.Is) and isinstance(c.left, ast.Name) and c.left.id == t
+                      and isinstance(c.comparators[0], ast.Constant) and c.comparators[0].value is None)
+                if not ok:
+                    fail(b, "expected `if not target:` / `if target is None:`")
+                exc = message_then_raise(b.body, {k, i, item})
+                continue
+            c = b.value if isinstance(b, ast.Expr) else None
+            if isinstance(c, ast.Call) and isinstance(c.func, ast.Attribute) and isinstance(c.func.value, ast.Name) and c.func.value.id == st["acc"] \
+                    and not c.keywords and t and direction is None:
+                if c.func.attr == "appendleft" and len(c.args) == 1 and isinstance(c.args[0], ast.Name) and c.args[0].id == t:
+                    direction = "left"; continue
+                if c.func.attr == "insert" and len(c.args) == 2 and isinstance(c.args[0], ast.Constant) and c.args[0].value == 0 \
+                        and type(c.args[0].value) is int and isinstance(c.args[1], ast.Name) and c.args[1].id == t:
+                    direction = "left"; continue
+                if c.func.attr == "append" and len(c.args) == 1 and isinstance(c.args[0], ast.Name) and c.args[0].id == t:
+                    direction = "right"; continue
+            fail(b, "statement in the loop: %s" % ast.unparse(b)[:60])
+        if not (k and i and t and exc and direction):
+            fail(lp, "the loop must unpack the item, look the object up, reject None and collect it")
+        return exc, direction
+
+    for s_ in body:
+        if st["done"]:
+            fail(s_, "statement after return")
+        c = s_.value if isinstance(s_, ast.Expr) else None
+        if isinstance(c, ast.Call) and self_attr(c.func, ["_validate_schedule_index"]) and not c.keywords and len(c.args) == 1 \
+                and isinstance(c.args[0], ast.Name) and c.args[0].id == "schedule_index" and not st["validated"]:
+            st["validated"] = True
+            continue
+        if isinstance(s_, ast.Assign) and len(s_.targets) == 1 and isinstance(s_.targets[0], ast.Name):
+            name, v = s_.targets[0].id, s_.value
+            if isinstance(v, ast.Subscript) and self_attr(v.value, ["schedules", "_schedules"]) and isinstance(v.slice, ast.Name) \
+                    and v.slice.id == "schedule_index" and st["sched"] is None:
+                if not st["validated"]:
+                    fail(s_, "the schedule is looked up before the index is validated")
+                if v.value.attr == "schedules":
+                    check_trivial_getter(tree, "Experiment", "schedules", "_schedules")
+                fresh(name, s_); st["sched"] = name
+                continue
+            if isinstance(v, ast.Call) and isinstance(v.func, ast.Name) and v.func.id == "dict" and st["kmap"] is None:
+                st["mk"] = Proc("(e_cfg self_)", "self_").mkcfg_of_dict(v)
+                fresh(name, s_); st["kmap"] = name
+                continue
+            empty = (isinstance(v, ast.List) and not v.elts) or \
+                    (isinstance(v, ast.Call) and not v.args and not v.keywords and
+                     ((isinstance(v.func, ast.Name) and v.func.id == "list") or
+                      (isinstance(v.func, ast.Attribute) and v.func.attr == "deque" and isinstance(v.func.value, ast.Name) and v.func.value.id == "collections")))
+            if empty and st["acc"] is None:
+                fresh(name, s_); st["acc"] = name
+                continue
+            if st["loop"] and st["result"] is None:
+                how = compose_call(v)
+                if how:
+                    fresh(name, s_); st["result"] = (name, how)
+                    continue
+            fail(s_, "assignment %s" % ast.unparse(s_)[:60])
+        if isinstance(s_, ast.For) and st["sched"] and st["kmap"] and st["acc"] and st["loop"] is None:
+            st["loop"] = loop(s_)
+            continue
+        if isinstance(s_, ast.Return) and st["loop"] and isinstance(s_.value, ast.Attribute) and s_.value.attr == "ps":
+            r = s_.value.value
+            if st["result"] and isinstance(r, ast.Name) and r.id == st["result"][0]:
+                st["done"] = True
+                continue
+            if st["result"] is None and compose_call(r):
+                st["result"] = (None, compose_call(r)); st["done"] = True
+                continue
+        fail(s_, "statement %s" % ast.unparse(s_)[:60])
+    if not st["done"]:
+        raise Unsupported("calc_prob_dist does not end with `return <composition>.ps`")
+    exc, direction = st["loop"]
+    coll = "collect_left" if direction == "left" else "collect_right"
+    expr = "%s %s items [] %s" % (coll, st["mk"], coq_str(exc))
+    if st["result"][1] == "reversed":
+        expr = "cr_rev (%s)" % expr
     return ("Definition gen_calc_prob_dist (self_ : exp) (schedule_index : pyval) : crun :=\n"
             "   match x_of_fres (gen_validate_schedule_index self_ schedule_index) with\n"
             "   | XPass => match sl_get (e_scheds self_) (pv_int (Some schedule_index)) with\n"
-            "              | Some (SSeq items) => collect_left %s items [] %s\n"
+            "              | Some (SSeq items) => %s\n"
             "              | _ => CRStuck\n"
             "              end\n"
             "   | XRaise e => CRRaise e\n"
             "   | XStuck => CRStuck\n"
-            "   end.") % (mk, coq_str(exc))
+            "   end.") % expr
+
+
+def loose_msg(e, bound, flags):
+    """message expressions of Experiment._validate_type: harmless() plus type(x), x.__name__, .lower(), .__str__(), set([type(t) for t in x])
+    and ", ".join(x).  join can raise TypeError (non-str items): flags["may_raise"] collects the classes such expressions can raise."""
+    try:
+        harmless(e, bound)
+        return
+    except Unsupported:
+        pass
+    if isinstance(e, ast.Attribute) and e.attr == "__name__":
+        return loose_msg(e.value, bound, flags)
+    if isinstance(e, ast.BinOp) and isinstance(e.op, ast.Add):
+        loose_msg(e.left, bound, flags); loose_msg(e.right, bound, flags)
+        return
+    if isinstance(e, ast.JoinedStr):
+        for v in e.values:
+            if isinstance(v, ast.FormattedValue):
+                if v.format_spec is not None:
+                    fail(e, "format spec")
+                loose_msg(v.value, bound, flags)
+        return
+    if isinstance(e, ast.Call) and not e.keywords:
+        f = e.func
+        if isinstance(f, ast.Name) and f.id == "type" and len(e.args) == 1:
+            return loose_msg(e.args[0], bound, flags)
+        if isinstance(f, ast.Name) and f.id == "set" and len(e.args) == 1 and isinstance(e.args[0], ast.ListComp) and len(e.args[0].generators) == 1:
+            g = e.args[0].generators[0]
+            if not g.ifs and isinstance(g.target, ast.Name):
+                loose_msg(g.iter, bound, flags)
+                return loose_msg(e.args[0].elt, bound | {g.target.id}, flags)
+        if isinstance(f, ast.Attribute) and f.attr in ("lower", "__str__") and not e.args:
+            return loose_msg(f.value, bound, flags)
+        if isinstance(f, ast.Attribute) and f.attr == "join" and len(e.args) == 1 and isinstance(f.value, ast.Constant) and type(f.value.value) is str:
+            flags.setdefault("may_raise", set()).add("TypeError")
+            return loose_msg(e.args[0], bound, flags)
+        if isinstance(f, ast.Attribute) and f.attr == "format" and isinstance(f.value, ast.Constant) and type(f.value.value) is str:
+            for a in e.args:
+                loose_msg(a, bound, flags)
+            return
+    fail(e, "message expression %s" % ast.unparse(e)[:60])
+
+
+def loose_block(stmts, bound, flags):
+    """message statements (assignments, nested if/else on message-only conditions) ending in `raise Name(msg)` -> Name"""
+    bound = set(bound)
+    for i, b in enumerate(stmts):
+        last = i == len(stmts) - 1
+        if isinstance(b, ast.Assign) and len(b.targets) == 1 and isinstance(b.targets[0], ast.Name) and not last:
+            loose_msg(b.value, bound, flags); bound.add(b.targets[0].id)
+        elif isinstance(b, ast.AugAssign) and isinstance(b.target, ast.Name) and isinstance(b.op, ast.Add) and b.target.id in bound and not last:
+            loose_msg(b.value, bound, flags)
+        elif isinstance(b, ast.If) and not last:
+            t = b.test
+            if not (isinstance(t, ast.Compare) and len(t.ops) == 1 and isinstance(t.ops[0], (ast.Eq, ast.NotEq))):
+                fail(b, "condition inside a message block")
+            loose_msg(t.left, bound, flags); loose_msg(t.comparators[0], bound | {"list", "tuple", "str", "int"}, flags)
+            for br in (b.body, b.orelse):
+                for x in br:
+                    if isinstance(x, ast.Assign) and len(x.targets) == 1 and isinstance(x.targets[0], ast.Name):
+                        loose_msg(x.value, bound, flags); bound.add(x.targets[0].id)
+                    elif isinstance(x, ast.AugAssign) and isinstance(x.target, ast.Name) and isinstance(x.op, ast.Add) and x.target.id in bound:
+                        loose_msg(x.value, bound, flags)
+                    else:
+                        fail(x, "statement inside a message block")
+        elif last and isinstance(b, ast.Raise) and b.cause is None and isinstance(b.exc, ast.Call) and isinstance(b.exc.func, ast.Name) \
+                and not b.exc.keywords and len(b.exc.args) == 1:
+            loose_msg(b.exc.args[0], bound, flags)
+            return b.exc.func.id
+        else:
+            fail(b, "statement in a message block")
+    raise Unsupported("message block does not end in raise")
+
+
+def translate_validate_type(repo):
+    """for target in targets: if target and not isinstance(target, expected_type): <messages> raise TypeError(..)"""
+    f = find_method(experiment_tree(repo), "Experiment", "_validate_type")
+    plain_params(f, ["self", "targets", "expected_type"])
+    b = [x for x in f.body if not is_doc(x)]
+    if len(b) != 1 or not (isinstance(b[0], ast.For) and not b[0].orelse and isinstance(b[0].target, ast.Name) and isinstance(b[0].iter, ast.Name)
+                           and b[0].iter.id == "targets" and len(b[0].body) == 1 and isinstance(b[0].body[0], ast.If) and not b[0].body[0].orelse):
+        raise Unsupported("_validate_type: expected `for target in targets: if <test>: ... raise`")
+    tv = b[0].target.id
+    if tv in ("self", "targets", "expected_type"):
+        raise Unsupported("_validate_type: loop variable")
+    def cond(e):
+        if isinstance(e, ast.BoolOp):
+            parts = [cond(v) for v in e.values]
+            op = "c_and" if isinstance(e.op, ast.And) else "c_or"
+            out = parts[-1]
+            for p_ in reversed(parts[:-1]):
+                out = "(%s %s %s)" % (op, p_, out)
+            return out
+        if isinstance(e, ast.UnaryOp) and isinstance(e.op, ast.Not):
+            return "(c_not %s)" % cond(e.operand)
+        if isinstance(e, ast.Name) and e.id == tv:
+            return "(c_bool (elem_truthy %s))" % tv
+        if isinstance(e, ast.Compare) and len(e.ops) == 1 and isinstance(e.ops[0], (ast.Is, ast.IsNot)) and isinstance(e.left, ast.Name) and e.left.id == tv \
+                and isinstance(e.comparators[0], ast.Constant) and e.comparators[0].value is None:
+            t = "(c_bool (negb (elem_truthy %s)))" % tv      # x is None  <->  not truthy, for None-or-object elements
+            return t if isinstance(e.ops[0], ast.Is) else "(c_not %s)" % t
+        if isinstance(e, ast.Call) and isinstance(e.func, ast.Name) and e.func.id == "isinstance" and not e.keywords and len(e.args) == 2 \
+                and isinstance(e.args[0], ast.Name) and e.args[0].id == tv and isinstance(e.args[1], ast.Name) and e.args[1].id == "expected_type":
+            return "(c_bool (elem_isinstance %s expected_type))" % tv
+        fail(e, "condition %s" % ast.unparse(e)[:60])
+    c = cond(b[0].body[0].test)
+    flags = {}
+    exc = loose_block(b[0].body[0].body, {tv, "targets", "expected_type"}, flags)
+    if flags.get("may_raise", set()) - {exc}:
+        raise Unsupported("_validate_type: the message block can raise %s but the statement raises %s" % (sorted(flags["may_raise"]), exc))
+    return ("Definition gen_validate_type (targets : list elem) (expected_type : string) : xres :=\n"
+            "   (x_for targets (fun %s => x_of_fres (f_if %s (FRaise 0 %s) FPass))).") % (tv, c, coq_str(exc))
+
+
+def translate_copy(repo):
+    """Experiment.copy: (copies of) the five lists handed to the validating constructor by keyword"""
+    tree = experiment_tree(repo)
+    f = find_method(tree, "Experiment", "copy")
+    plain_params(f, ["self"])
+    PROP = {"states": "_states", "povms": "_povms", "gates": "_gates", "mprocesses": "_mprocesses", "schedules": "_schedules"}
+    src = {}      # local name -> attribute it is a (copy of)
+    def source(e):
+        """expression whose VALUE is the list stored in an attribute -> that attribute"""
+        if isinstance(e, ast.Name) and e.id in src:
+            return src[e.id]
+        if isinstance(e, ast.Attribute) and isinstance(e.value, ast.Name) and e.value.id == "self":
+            if e.attr in PROP.values():
+                return e.attr
+            if e.attr in PROP:
+                check_trivial_getter(tree, "Experiment", e.attr, PROP[e.attr])
+                return PROP[e.attr]
+        if isinstance(e, ast.Call) and len(e.args) == 1 and not e.keywords and \
+                ((isinstance(e.func, ast.Name) and e.func.id == "list") or
+                 (isinstance(e.func, ast.Attribute) and e.func.attr == "copy" and isinstance(e.func.value, ast.Name) and e.func.value.id == "copy")):
+            return source(e.args[0])
+        fail(e, "expected (a shallow copy of) one of the experiment's lists")
+    def ctor(c):
+        if not (isinstance(c, ast.Call) and isinstance(c.func, ast.Name) and c.func.id == "Experiment" and not c.args):
+            return None
+        kw = {k.arg: k.value for k in c.keywords}
+        if None in kw or set(kw) - (set(PROP) | {"seed_data"}) or "schedules" not in kw:
+            fail(c, "keyword arguments of Experiment(...)")
+        def arg(name):
+            if name not in kw:
+                return "None"
+            a = source(kw[name])
+            return "(Some (%s (e_cfg self_)))" % FIELD_OF_ATTR[a] if a in FIELD_OF_ATTR else fail(c, "argument %s" % name)
+        if source(kw["schedules"]) != "_schedules":
+            fail(c, "schedules argument")
+        return "gen_experiment_init (e_scheds self_) %s" % " ".join(arg(n) for n in ("states", "povms", "gates", "mprocesses"))
+    out = None
+    for st_ in [x for x in f.body if not is_doc(x)]:
+        if out == "done":
+            fail(st_, "statement after return")
+        if isinstance(st_, ast.Assign) and len(st_.targets) == 1 and isinstance(st_.targets[0], ast.Name) and st_.targets[0].id != "self":
+            name = st_.targets[0].id
+            c = ctor(st_.value)
+            if c:
+                if out:
+                    fail(st_, "second Experiment(...)")
+                out = (name, c)
+                continue
+            if name in src or (out and name == out[0]):
+                fail(st_, "rebinding %s" % name)
+            src[name] = source(st_.value)
+            continue
+        if isinstance(st_, ast.Return):
+            if out and isinstance(st_.value, ast.Name) and st_.value.id == out[0]:
+                res, out = out[1], "done"
+                continue
+            if not out and ctor(st_.value):
+                res, out = ctor(st_.value), "done"
+                continue
+        fail(st_, "statement %s" % ast.unparse(st_)[:60])
+    if out != "done":
+        raise Unsupported("Experiment.copy does not return the new Experiment")
+    return "Definition gen_copy (self_ : exp) : exp * xres :=\n   (%s)." % res
 
 
 def translate_schedules_str(repo):
@@ -1017,79 +1282,136 @@ def translate_tomo_init(repo, path, cls, tag):
     d = a.defaults[len(a.defaults) - (len(pnames) - pnames.index("schedules"))] if len(pnames) - pnames.index("schedules") <= len(a.defaults) else None
     if not (isinstance(d, ast.Constant) and d.value == "all"):
         raise Unsupported("%s.__init__: default of schedules is not \"all\"" % cls)
-    b = [x for x in f.body if not is_doc(x)]
-    if len(b) < 4:
-        raise Unsupported("%s.__init__: body too short" % cls)
-    def bad(i, why):
-        raise Unsupported("%s.__init__, statement %d: %s" % (cls, i, why))
-    # 0: if type(schedules) == str: self._validate_schedules_str(schedules)
-    s0 = b[0]
-    ok = isinstance(s0, ast.If) and not s0.orelse and len(s0.body) == 1 and isinstance(s0.test, ast.Compare) and len(s0.test.ops) == 1 \
-        and isinstance(s0.test.ops[0], ast.Eq) and isinstance(s0.test.left, ast.Call) and isinstance(s0.test.left.func, ast.Name) \
-        and s0.test.left.func.id == "type" and len(s0.test.left.args) == 1 and isinstance(s0.test.left.args[0], ast.Name) \
-        and s0.test.left.args[0].id == "schedules" and isinstance(s0.test.comparators[0], ast.Name) and s0.test.comparators[0].id == "str"
-    c = s0.body[0].value if ok and isinstance(s0.body[0], ast.Expr) else None
-    if not (ok and isinstance(c, ast.Call) and isinstance(c.func, ast.Attribute) and c.func.attr == "_validate_schedules_str"
-            and isinstance(c.func.value, ast.Name) and c.func.value.id == "self" and not c.keywords and len(c.args) == 1
-            and isinstance(c.args[0], ast.Name) and c.args[0].id == "schedules"):
-        bad(0, "expected `if type(schedules) == str: self._validate_schedules_str(schedules)`")
-    # 1: if schedules == "all": schedules = <expansion>
-    s1 = b[1]
-    if not (isinstance(s1, ast.If) and not s1.orelse and isinstance(s1.test, ast.Compare) and len(s1.test.ops) == 1 and isinstance(s1.test.ops[0], ast.Eq)
-            and isinstance(s1.test.left, ast.Name) and s1.test.left.id == "schedules" and isinstance(s1.test.comparators[0], ast.Constant)
-            and type(s1.test.comparators[0].value) is str):
-        bad(1, "expected `if schedules == \"<str>\":`")
-    key = s1.test.comparators[0].value
-    eb = s1.body
-    def is_sched_assign(st):
-        return isinstance(st, ast.Assign) and len(st.targets) == 1 and isinstance(st.targets[0], ast.Name) and st.targets[0].id == "schedules"
-    if len(eb) == 1 and is_sched_assign(eb[0]) and isinstance(eb[0].value, ast.ListComp) and len(eb[0].value.generators) == 1:
-        g = eb[0].value.generators[0]
-        if g.ifs or g.is_async or not isinstance(g.target, ast.Name) or g.target.id in pnames:
-            bad(1, "comprehension")
-        expansion = "(map (fun %s => %s) %s)" % (g.target.id, sched_literal(eb[0].value.elt, {g.target.id}), range_len(g.iter, params))
-    elif len(eb) == 2 and is_sched_assign(eb[0]) and isinstance(eb[0].value, ast.List) and not eb[0].value.elts and isinstance(eb[1], ast.For) \
-            and not eb[1].orelse and len(eb[1].body) == 1:
-        lp = eb[1]
-        it = lp.iter
-        if not (isinstance(lp.target, ast.Tuple) and len(lp.target.elts) == 2 and all(isinstance(x, ast.Name) for x in lp.target.elts)
-                and isinstance(it, ast.Call) and isinstance(it.func, ast.Name) and it.func.id == "product" and len(it.args) == 2 and not it.keywords):
-            bad(1, "expected `for i, j in product(range(len(A)), range(len(B))):`")
-        i, j = lp.target.elts[0].id, lp.target.elts[1].id
-        if i == j or i in pnames or j in pnames:
-            bad(1, "loop variable names")
-        ap = lp.body[0].value if isinstance(lp.body[0], ast.Expr) else None
-        if not (isinstance(ap, ast.Call) and isinstance(ap.func, ast.Attribute) and ap.func.attr == "append" and isinstance(ap.func.value, ast.Name)
-                and ap.func.value.id == "schedules" and not ap.keywords and len(ap.args) == 1):
-            bad(1, "expected schedules.append([...])")
-        expansion = "(flat_map (fun %s => map (fun %s => %s) %s) %s)" % (i, j, sched_literal(ap.args[0], {i, j}), range_len(it.args[1], params), range_len(it.args[0], params))
-    else:
-        bad(1, "expansion of \"%s\"" % key)
-    # 2: experiment = Experiment(...)
-    s2 = b[2]
-    c = s2.value if isinstance(s2, ast.Assign) and len(s2.targets) == 1 and isinstance(s2.targets[0], ast.Name) else None
-    if not (isinstance(c, ast.Call) and isinstance(c.func, ast.Name) and c.func.id == "Experiment" and not c.args):
-        bad(2, "expected NAME = Experiment(<keyword arguments>)")
-    expname = s2.targets[0].id
-    kw = {k.arg: k.value for k in c.keywords}
-    if None in kw or set(kw) - {"states", "povms", "gates", "mprocesses", "schedules", "seed_data"} or "schedules" not in kw \
-            or not (isinstance(kw["schedules"], ast.Name) and kw["schedules"].id == "schedules"):
-        bad(2, "keyword arguments of Experiment(...)")
-    def list_arg(name):
-        if name not in kw:
-            return "None"
-        v = kw[name]
-        if isinstance(v, ast.Name) and v.id == name and name in params:
-            return "(Some (repeat true %s))" % SIZE_OF_PARAM[name]          # the caller's testers: real objects
-        if isinstance(v, ast.List) and all(isinstance(x, ast.Constant) and x.value is None for x in v.elts):
-            return "(Some [%s])" % "; ".join("false" for _ in v.elts)      # None placeholders
-        bad(2, "argument %s=%s" % (name, ast.unparse(v)))
-    exp_args = " ".join(list_arg(n) for n in ("states", "povms", "gates", "mprocesses"))
-    # 3: self._validate_schedules(schedules)
-    c = b[3].value if isinstance(b[3], ast.Expr) else None
-    if not (isinstance(c, ast.Call) and isinstance(c.func, ast.Attribute) and c.func.attr == "_validate_schedules" and isinstance(c.func.value, ast.Name)
-            and c.func.value.id == "self" and not c.keywords and len(c.args) == 1 and isinstance(c.args[0], ast.Name) and c.args[0].id == "schedules"):
-        bad(3, "expected self._validate_schedules(schedules)")
+    stmts = [x for x in f.body if not is_doc(x)]
+    def bad(node, why):
+        raise Unsupported("%s.__init__ (line %s): %s" % (cls, getattr(node, "lineno", "?"), why))
+
+    def is_str_test(t):
+        # type(schedules) == str | isinstance(schedules, str)
+        if isinstance(t, ast.Compare) and len(t.ops) == 1 and isinstance(t.ops[0], ast.Eq) and isinstance(t.left, ast.Call) \
+                and isinstance(t.left.func, ast.Name) and t.left.func.id == "type" and len(t.left.args) == 1 and not t.left.keywords \
+                and isinstance(t.left.args[0], ast.Name) and t.left.args[0].id == "schedules" and isinstance(t.comparators[0], ast.Name) \
+                and t.comparators[0].id == "str":
+            return True
+        return isinstance(t, ast.Call) and isinstance(t.func, ast.Name) and t.func.id == "isinstance" and len(t.args) == 2 and not t.keywords \
+            and isinstance(t.args[0], ast.Name) and t.args[0].id == "schedules" and isinstance(t.args[1], ast.Name) and t.args[1].id == "str"
+
+    def is_str_call(st_):
+        c = st_.value if isinstance(st_, ast.Expr) else None
+        return isinstance(c, ast.Call) and isinstance(c.func, ast.Attribute) and c.func.attr == "_validate_schedules_str" \
+            and isinstance(c.func.value, ast.Name) and c.func.value.id == "self" and not c.keywords and len(c.args) == 1 \
+            and isinstance(c.args[0], ast.Name) and c.args[0].id == "schedules"
+
+    def is_inert(st_):
+        # self.ATTR = <parameter other than schedules> : cannot raise, does not touch the schedules
+        tg = st_.targets[0] if isinstance(st_, ast.Assign) and len(st_.targets) == 1 else (st_.target if isinstance(st_, ast.AnnAssign) else None)
+        v = getattr(st_, "value", None)
+        return isinstance(tg, ast.Attribute) and isinstance(tg.value, ast.Name) and tg.value.id == "self" and isinstance(v, ast.Name) \
+            and v.id in pnames and v.id not in ("schedules", "self")
+
+    def is_sched_assign(st_):
+        return isinstance(st_, ast.Assign) and len(st_.targets) == 1 and isinstance(st_.targets[0], ast.Name) and st_.targets[0].id == "schedules"
+
+    def expansion_of(s1):
+        if not (isinstance(s1, ast.If) and not s1.orelse and isinstance(s1.test, ast.Compare) and len(s1.test.ops) == 1 and isinstance(s1.test.ops[0], ast.Eq)
+                and isinstance(s1.test.left, ast.Name) and s1.test.left.id == "schedules" and isinstance(s1.test.comparators[0], ast.Constant)
+                and type(s1.test.comparators[0].value) is str):
+            return None
+        key = s1.test.comparators[0].value
+        eb = s1.body
+        if len(eb) == 1 and is_sched_assign(eb[0]) and isinstance(eb[0].value, ast.ListComp) and len(eb[0].value.generators) == 1:
+            g = eb[0].value.generators[0]
+            if g.ifs or g.is_async or not isinstance(g.target, ast.Name) or g.target.id in pnames:
+                bad(s1, "comprehension")
+            return key, "(map (fun %s => %s) %s)" % (g.target.id, sched_literal(eb[0].value.elt, {g.target.id}), range_len(g.iter, params))
+        if len(eb) == 1 and is_sched_assign(eb[0]) and isinstance(eb[0].value, ast.ListComp) and len(eb[0].value.generators) == 2:
+            g1, g2 = eb[0].value.generators
+            if g1.ifs or g2.ifs or g1.is_async or g2.is_async or not isinstance(g1.target, ast.Name) or not isinstance(g2.target, ast.Name) \
+                    or g1.target.id == g2.target.id or g1.target.id in pnames or g2.target.id in pnames:
+                bad(s1, "comprehension")
+            return key, "(flat_map (fun %s => map (fun %s => %s) %s) %s)" % (
+                g1.target.id, g2.target.id, sched_literal(eb[0].value.elt, {g1.target.id, g2.target.id}), range_len(g2.iter, params), range_len(g1.iter, params))
+        if len(eb) == 2 and is_sched_assign(eb[0]) and isinstance(eb[0].value, ast.List) and not eb[0].value.elts and isinstance(eb[1], ast.For) \
+                and not eb[1].orelse and len(eb[1].body) == 1:
+            lp = eb[1]
+            it = lp.iter
+            def append_of(st_):
+                ap = st_.value if isinstance(st_, ast.Expr) else None
+                if not (isinstance(ap, ast.Call) and isinstance(ap.func, ast.Attribute) and ap.func.attr == "append" and isinstance(ap.func.value, ast.Name)
+                        and ap.func.value.id == "schedules" and not ap.keywords and len(ap.args) == 1):
+                    bad(st_, "expected schedules.append([...])")
+                return ap.args[0]
+            # for i, j in product(range(len(A)), range(len(B))): schedules.append([...])
+            if isinstance(lp.target, ast.Tuple) and len(lp.target.elts) == 2 and all(isinstance(x, ast.Name) for x in lp.target.elts) \
+                    and isinstance(it, ast.Call) and isinstance(it.func, ast.Name) and it.func.id == "product" and len(it.args) == 2 and not it.keywords:
+                i, j = lp.target.elts[0].id, lp.target.elts[1].id
+                if i == j or i in pnames or j in pnames:
+                    bad(lp, "loop variable names")
+                return key, "(flat_map (fun %s => map (fun %s => %s) %s) %s)" % (
+                    i, j, sched_literal(append_of(lp.body[0]), {i, j}), range_len(it.args[1], params), range_len(it.args[0], params))
+            # for i in range(len(A)): for j in range(len(B)): schedules.append([...])      |     single loop
+            if isinstance(lp.target, ast.Name) and lp.target.id not in pnames:
+                i = lp.target.id
+                inner = lp.body[0]
+                if isinstance(inner, ast.For) and not inner.orelse and len(inner.body) == 1 and isinstance(inner.target, ast.Name) \
+                        and inner.target.id not in pnames and inner.target.id != i:
+                    j = inner.target.id
+                    return key, "(flat_map (fun %s => map (fun %s => %s) %s) %s)" % (
+                        i, j, sched_literal(append_of(inner.body[0]), {i, j}), range_len(inner.iter, params), range_len(it, params))
+                return key, "(map (fun %s => %s) %s)" % (i, sched_literal(append_of(inner), {i}), range_len(it, params))
+        bad(s1, "expansion of \"%s\"" % key)
+
+    stage, key, expansion, expname, exp_args, rest_from = 0, None, None, None, None, None
+    for n_, st_ in enumerate(stmts):
+        if stage < 3 and is_inert(st_):
+            continue
+        if stage == 0:
+            if not (isinstance(st_, ast.If) and not st_.orelse and is_str_test(st_.test) and st_.body and is_str_call(st_.body[0])):
+                bad(st_, "expected `if type(schedules) == str: self._validate_schedules_str(schedules)` first")
+            if len(st_.body) == 1:
+                stage = 1
+            elif len(st_.body) == 2 and expansion_of(st_.body[1]):       # the "all" test nested in the str branch
+                key, expansion = expansion_of(st_.body[1]); stage = 2
+            else:
+                bad(st_, "body of the str branch")
+            continue
+        if stage == 1:
+            r = expansion_of(st_)
+            if not r:
+                bad(st_, "expected `if schedules == \"all\": schedules = ...`")
+            key, expansion = r; stage = 2
+            continue
+        if stage == 2:
+            c = st_.value if isinstance(st_, ast.Assign) and len(st_.targets) == 1 and isinstance(st_.targets[0], ast.Name) else None
+            if not (isinstance(c, ast.Call) and isinstance(c.func, ast.Name) and c.func.id == "Experiment" and not c.args):
+                bad(st_, "expected NAME = Experiment(<keyword arguments>)")
+            expname = st_.targets[0].id
+            kw = {k.arg: k.value for k in c.keywords}
+            if None in kw or set(kw) - {"states", "povms", "gates", "mprocesses", "schedules", "seed_data"} or "schedules" not in kw \
+                    or not (isinstance(kw["schedules"], ast.Name) and kw["schedules"].id == "schedules"):
+                bad(st_, "keyword arguments of Experiment(...)")
+            def list_arg(name):
+                if name not in kw:
+                    return "None"
+                v = kw[name]
+                if isinstance(v, ast.Name) and v.id == name and name in params:
+                    return "(Some (repeat true %s))" % SIZE_OF_PARAM[name]          # the caller's testers: real objects
+                if isinstance(v, ast.List) and all(isinstance(x, ast.Constant) and x.value is None for x in v.elts):
+                    return "(Some [%s])" % "; ".join("false" for _ in v.elts)      # None placeholders
+                bad(st_, "argument %s=%s" % (name, ast.unparse(v)))
+            exp_args = " ".join(list_arg(n) for n in ("states", "povms", "gates", "mprocesses"))
+            stage = 3
+            continue
+        if stage == 3:
+            c = st_.value if isinstance(st_, ast.Expr) else None
+            if not (isinstance(c, ast.Call) and isinstance(c.func, ast.Attribute) and c.func.attr == "_validate_schedules" and isinstance(c.func.value, ast.Name)
+                    and c.func.value.id == "self" and not c.keywords and len(c.args) == 1 and isinstance(c.args[0], ast.Name) and c.args[0].id == "schedules"):
+                bad(st_, "expected self._validate_schedules(schedules) right after the Experiment is built")
+            stage, rest_from = 4, n_ + 1
+            break
+    if stage != 4:
+        raise Unsupported("%s.__init__: schedule prologue incomplete (stage %d)" % (cls, stage))
+    b = [None] * 4 + stmts[rest_from:]
     # the rest of the constructor (numerics) must not rebind schedules / the experiment
     for st in b[4:]:
         for n in ast.walk(st):
@@ -1174,7 +1496,9 @@ def main():
                  "(* from quara/qcircuit/experiment.py : Experiment.__init__ *)", translate_init(repo), "",
                  "(* from quara/qcircuit/experiment.py : the setters of states / povms / gates / mprocesses / schedules *)", translate_setters(repo), "",
                  "(* from quara/qcircuit/experiment.py : Experiment._validate_schedule_index, Experiment.calc_prob_dist *)",
-                 translate_schedule_index(repo), translate_calc_prob_dist(repo), ""]
+                 translate_schedule_index(repo), translate_calc_prob_dist(repo), "",
+                 "(* from quara/qcircuit/experiment.py : Experiment._validate_type, Experiment.copy *)",
+                 translate_validate_type(repo), translate_copy(repo), ""]
         for path, cls, name in GUARDS:
             parts += ["(* from %s : %s._validate_schedules, body of the loop over the schedules *)" % (path, cls), translate_guard(repo, path, cls, name), ""]
         parts += ["(* from quara/protocol/qtomography/standard/standard_qtomography.py : StandardQTomography._validate_schedules_str *)",
